@@ -5,7 +5,10 @@ package status
 import (
 	"context"
 	"fmt"
+	"os"
+	"runtime"
 	"strings"
+	"sync"
 	"testing"
 
 	"go.opentelemetry.io/collector/component"
@@ -23,12 +26,21 @@ func (c *verifComp) Shutdown(context.Context) error                  { return ni
 // verifHost is what the graph gives each component instance: a host whose Report goes to the
 // service reporter under that instance's id.
 type verifHost struct {
-	rep Reporter
-	id  *componentstatus.InstanceID
+	rep  Reporter
+	id   *componentstatus.InstanceID
+	slow bool
 }
 
 func (h *verifHost) GetExtensions() map[component.ID]component.Component { return nil }
-func (h *verifHost) Report(ev *componentstatus.Event)                     { h.rep.ReportStatus(h.id, ev) }
+func (h *verifHost) Report(ev *componentstatus.Event) {
+	if h.slow {
+		// a host is user code and may be slow: widens the window between two concurrent deliveries
+		for i := 0; i < 3; i++ {
+			runtime.Gosched()
+		}
+	}
+	h.rep.ReportStatus(h.id, ev)
+}
 
 // TestVerifC11Shared: a real sharedcomponent.Component started by 1..4 instance hosts at random
 // points of a random report history; after every step the current status of every instance
@@ -106,6 +118,66 @@ func TestVerifC11Shared(t *testing.T) {
 		}
 		out.Linef("stat attaches %d", attaches)
 		out.Linef("stat reports %d", reports)
+		out.Linef("end")
+		out.Flush()
+	}
+	// race mode: 2-3 instances attached, then the component reports from two goroutines at once. A report is delivered to every
+	// attached instance as one atomic step (hostWrapper's lock), so all instances must see the SAME sequence of events.
+	if _, replay := os.LookupEnv("VERIF_REPLAY_CASE"); !replay {
+		raceN := 3000
+		if vThorough() {
+			raceN = 40000
+		}
+		out.Linef("case 3000000")
+		bad := 0
+		for it := 0; it < raceN; it++ {
+			var mu sync.Mutex
+			evs := map[*componentstatus.InstanceID][]componentstatus.Status{}
+			rep := NewReporter(func(id *componentstatus.InstanceID, ev *componentstatus.Event) {
+				mu.Lock()
+				evs[id] = append(evs[id], ev.Status())
+				mu.Unlock()
+			}, func(error) {})
+			m := sharedcomponent.NewMap[string, *verifComp]()
+			comp, _ := m.LoadOrStore("k", func() (*verifComp, error) { return &verifComp{}, nil })
+			k := 2 + it%2
+			var ids []*componentstatus.InstanceID
+			for i := 0; i < k; i++ {
+				id := &componentstatus.InstanceID{}
+				ids = append(ids, id)
+				rep.ReportStatus(id, componentstatus.NewEvent(componentstatus.StatusStarting))
+				_ = comp.Start(context.Background(), &verifHost{rep: rep, id: id, slow: i == 0})
+			}
+			wrapper := comp.Unwrap().host.(componentstatus.Reporter)
+			var wg sync.WaitGroup
+			start := make(chan struct{})
+			for _, st := range []componentstatus.Status{componentstatus.StatusRecoverableError, componentstatus.StatusOK} {
+				wg.Add(1)
+				go func() {
+					defer wg.Done()
+					<-start
+					wrapper.Report(componentstatus.NewEvent(st))
+				}()
+			}
+			close(start)
+			wg.Wait()
+			same := true
+			for _, id := range ids[1:] {
+				if fmt.Sprint(evs[id]) != fmt.Sprint(evs[ids[0]]) {
+					same = false
+				}
+			}
+			if !same && bad < 3 {
+				bad++
+				var all []string
+				for _, id := range ids {
+					all = append(all, fmt.Sprint(evs[id]))
+				}
+				out.Linef("viol sig=C11/sharedcomponent/instances-see-concurrent-reports-in-different-order iteration=%d events=%s", it, vHex(strings.Join(all, " | ")))
+			}
+		}
+		out.Linef("nt")
+		out.Linef("stat shared_race_iterations %d", raceN)
 		out.Linef("end")
 		out.Flush()
 	}
